@@ -24,7 +24,7 @@ RULE = (
     "variables for the request or the answer is a product / needs interpolation"
 )
 SPACE = {
-    "quick": "grid A (X:{C,L}, Y:{C,O}): all registries of <= 3 of 9 pool variables (both list orders for pairs) x 6 array layouts x 6 requests; grid B (X:{C,L,R}, Y:{C,L}, Z:{C,O}): all registries of <= 3 of 11 variables x 3 array positions x 15 ordered requests; derived operations on every registry of grid A that answers",
+    "quick": "grid A (X:{C,L}, Y:{C,O}): all registries of <= 3 of 12 pool variables (1-D and non-separable 2-D single-axis metrics) (both list orders for pairs) x 6 array layouts x 6 requests; grid B (X:{C,L,R}, Y:{C,L}, Z:{C,O}): all registries of <= 3 of 11 variables x 3 array positions x 15 ordered requests; derived operations on every registry of grid A that answers",
     "thorough": "registries of <= 4 variables on both grids, all list orders",
 }
 BOUNDS = {"quick": {"max_vars": 3}, "thorough": {"max_vars": 4}}
@@ -38,7 +38,9 @@ GRIDS = {
     "A": dict(lay={"X": ("center", "left"), "Y": ("center", "outer")}, ns={"X": 3, "Y": 2},
               pool=[(("X",), dict(X="center")), (("X",), dict(X="left")), (("Y",), dict(Y="center")), (("Y",), dict(Y="outer")),
                     (("X", "Y"), dict(X="center", Y="center")), (("X", "Y"), dict(X="left", Y="outer")), (("X", "Y"), dict(X="left", Y="center")),
-                    (("X",), dict(X="center"), "b"), (("Y",), dict(Y="outer"), "b")],
+                    (("X",), dict(X="center"), "b"), (("Y",), dict(Y="outer"), "b"),
+                    # single-axis metrics that vary along both axes (not separable)
+                    (("X",), dict(X="center", Y="center"), "2d"), (("Y",), dict(X="center", Y="center"), "2d"), (("X",), dict(X="left", Y="outer"), "2d")],
               arrays=[("xc", "yc"), ("xl", "yc"), ("xc", "yo"), ("xl", "yo"), ("yc", "xc"), ("t", "yo", "xl")],
               requests=[("X",), ("Y",), ("X", "Y"), ("Y", "X"), "X", ["Y", "X"]]),
     "B": dict(lay={"X": ("center", "left", "right"), "Y": ("center", "left"), "Z": ("center", "outer")}, ns={"X": 2, "Y": 2, "Z": 2},
@@ -61,7 +63,7 @@ def ctx(gname):
         for i, spec in enumerate(G["pool"]):
             axes, posn = spec[0], spec[1]
             tag = spec[2] if len(spec) > 2 else ""
-            name = "m" + "".join(a.lower() for a in axes) + "_" + "".join(S.SHORT[posn[a]] for a in axes) + tag
+            name = "m" + "".join(a.lower() for a in axes) + "_" + "".join(S.SHORT[posn[a]] for a in posn) + tag
             vs.append(mg.make_var(name, axes, posn, pit))
         ds = mg.dataset(vs, extra={"t": 2})
         _CTX[gname] = dict(mg=mg, vars=vs, ds=ds)
